@@ -50,6 +50,10 @@ def base_scenario(rng, **o):
     tlen = (fsim[-1] + 2) * dt
     start = base_t + (tlen if rev else 0)
     sc = dict(dt=dt, dx=dx, dy=dy, imax=imax, jmax=jmax, N=N, M=M, H=H, rev=rev, start=start)
+    if o.get("varmetric", rng.random() < 0.15):          # grid spacing changes from cell to cell (pm, pn not uniform)
+        ci, cj = rng.randrange(3, imax - 3), rng.randrange(3, jmax - 3)
+        sc["dxarr"] = [[128 if (i < ci) == (j % 2 == 0 or True) else 256 for i in range(imax)] for j in range(jmax)]
+        sc["dyarr"] = [[128 if j < cj else 256 for i in range(imax)] for j in range(jmax)]
     sc["stop"] = sim2t(sc, nsteps) + (0 if o.get("exact_stop", rng.random() < 0.8) else (-1 if rev else 1) * rng.randrange(1, dt))
     ftimes_sim = fsim if not rev else fsim[::-1]
     sc["ftimes"] = [sim2t(sc, s) for s in ftimes_sim]          # ascending real time
@@ -140,7 +144,7 @@ def directed(rng, kind, **o):
     if kind == "shear":      # sheared, time-dependent flow, little land: Runge-Kutta stages differ
         return base_scenario(rng, fm=dict(a=rng.randrange(1, 9), b=rng.randrange(1, 9), c=rng.randrange(0, 30), d=rng.randrange(1, 20), e=rng.randrange(0, 3)),
                              nland=rng.choice([0, 0, 1]), nsteps=rng.randrange(2, 7), adv=rng.choice(["RK2", "RK4", "RK4", "EF"]),
-                             dx=rng.choice([128.0, 256.0]), dy=rng.choice([128.0, 256.0]), **o)
+                             dx=rng.choice([128.0, 256.0]), dy=rng.choice([128.0, 256.0]), varmetric=rng.random() < 0.4, **o)
     if kind == "deaths":     # many scripted kills and freezes, dense and sparse, particle variables
         return base_scenario(rng, nkill=rng.randrange(2, 6), nfreeze=rng.choice([0, 1, 2]), nsteps=rng.randrange(3, 9), ntimes=rng.choice([2, 3]), pvars=True, **o)
     raise ValueError(kind)
@@ -164,6 +168,8 @@ def setup_event(sc):
                 cfg=dict(start=sc["start"], stop=sc["stop"], dt=sc["dt"], rev=sc["rev"], cont=sc["cont"], freq=sc["freq"]),
                 table=[dict(t=r["t"], mult=r["mult"], id=r["id"], x=_q(r["xf"]), y=_q(r["yf"]), z=_q(r["zf"])) for r in sc["rows"]],
                 grid=dict(i0=i0, i1=i1, j0=j0, j1=j1, dt=sc["dt"], dx=int(sc["dx"]), dy=int(sc["dy"]),
+                          dxt=[[int(v) for v in row[i0:i1]] for row in (sc.get("dxarr") or [[sc["dx"]] * sc["imax"]] * sc["jmax"])[j0:j1]],
+                          dyt=[[int(v) for v in row[i0:i1]] for row in (sc.get("dyarr") or [[sc["dy"]] * sc["imax"]] * sc["jmax"])[j0:j1]],
                           mask=[row[i0:i1] for row in M[j0:j1]]),
                 kill=sc["kill"], freeze=sc.get("freeze", []), killfarm=sc.get("killfarm", []), out=dict(ops=sc["ops"], numrec=sc["numrec"], sparse=sc["layout"] == "sparse", pvars=sc["pvars"]),
                 warm=bool(sc.get("warm")), vert=bool(sc.get("vert") or sc.get("wfield")), token=sc.get("token", 0),
